@@ -34,7 +34,7 @@ func VerifHarness_C13_channel_numbers() {
 // WriteTo gating: data toward a peer only after a CreatePermission success for it, as a Send
 // indication while the channel is not confirmed; an error (and no data) when the permission cannot be had.
 //
-//verif:props=C13,C18 unwind=12 bounds="one WriteTo to a fresh arbitrary IPv4/IPv6 peer; every server reaction (success/400/403/438/silence) to each of up to 3 CreatePermission attempts; 4-byte payload; client write may fail"
+//verif:props=C13,C18,C14 unwind=12 bounds="one WriteTo to a fresh arbitrary IPv4/IPv6 peer; every server reaction (success/400/403/438/silence) to each of up to 3 CreatePermission attempts; 4-byte payload; client write may fail"
 func VerifHarness_C13_write_needs_permission() {
 	fc := &vClient{fixed: -1, writeFails: true}
 	c := vNewUDPConn(fc)
@@ -64,6 +64,9 @@ func VerifHarness_C13_write_needs_permission() {
 	vAssertIf(err == nil, vAnd(dataWrites == 1, n == len(payload)), "C13.successful_write_sent_the_payload")
 	vAssertIf(!permOK, vAnd(err != nil, dataWrites == 0), "C13.no_permission_no_data")
 	vAssertIf(!permOK, !vPermitted(c, peer), "C13.failed_permission_is_not_remembered_as_permitted")
+	// ... and a permission the server granted (possibly on the retry after a 438) is tracked, so that the periodic
+	// refresh keeps it alive
+	vAssertIf(vAnd(permOK, err == nil), vPermitted(c, peer), "C14.granted_permission_is_tracked_for_the_periodic_refresh")
 	vAssert(vLocksHeld() == 0, "C13.no_lock_left_held")
 	vCover(vAnd(permOK, attempts == 2), "C13.cover_stale_nonce_retry_then_success")
 	vCover(dataWrites == 1, "C13.cover_data_sent")
